@@ -27,7 +27,13 @@ func main() {
 	}
 	in := bufio.NewScanner(os.Stdin)
 	in.Buffer(make([]byte, 1<<20), 1<<28)
-	w := bufio.NewWriterSize(os.Stdout, 1<<20)
+	size := 1 << 20
+	if os.Getenv("VERIF_UNBUFFERED") != "" {
+		// isolated workers: every record reaches the pipe before the next case runs, so that the
+		// case that kills the process is the first unanswered one
+		size = 16
+	}
+	w := bufio.NewWriterSize(os.Stdout, size)
 	out := json.NewEncoder(w)
 	out.SetEscapeHTML(false)
 	err := fn(in, out)
